@@ -267,6 +267,19 @@ func streamScope(o *Out, r *rand.Rand, n int, thorough bool) {
 		{"tb = make([]bool, 3)\ntb[2] = true\nn = 0\nfor q in tb {\nif q {\nn++\n}\nq = true\n}\nprobe(n)", vals.Encode(int64(1))},
 		{"ts = make([]int64, 3)\nts[0] = 5\nts[1] = 6\nts[2] = 7\nseen = []\nfor i in ts {\nseen += i\ndelete(\"i\")\n}\nprobe(seen)", vals.Encode([]interface{}{int64(5), int64(6), int64(7)})},
 	}
+	closureCases = append(closureCases, []struct{ src, want string }{
+		// delete(name, true) removes the NEAREST binding only: the name then refers to the enclosing binding again
+		{"x = \"global\"\nfunc f() {\nvar x = \"local\"\ndelete(\"x\", true)\nreturn x\n}\nprobe([f(), x])", vals.Encode([]interface{}{"global", "global"})},
+		{"x = 1\nfunc f() {\nvar x = 2\nif true {\nvar x = 3\ndelete(\"x\", true)\nreturn x\n}\n}\nprobe([f(), x])", vals.Encode([]interface{}{int64(2), int64(1)})},
+		{"x = \"g\"\nfunc mk() {\nvar x = \"captured\"\nreturn func() { return x }\n}\nget = mk()\nfunc g(x) {\ndelete(\"x\", true)\nreturn x\n}\nprobe([g(\"param\"), get(), x])", vals.Encode([]interface{}{"g", "captured", "g"})},
+		{"x = 1\nfor x in [5] {\ndelete(\"x\", true)\nprobe(x)\n}\nprobe(x)", vals.Encode(int64(1))},
+		{"x = 1\nfunc f() {\nvar x = 2\ndelete(\"x\")\nreturn x\n}\nprobe([f(), x])", vals.Encode([]interface{}{int64(1), int64(1)})},
+		// invocations of one function value running at the same time on several goroutines keep their own parameters
+		// (5 parameters / variadic: the functions that go through reflect.MakeFunc; 2 parameters: the direct path)
+		{"res = make(chan int64, 8)\nfunc same(a, b, c, d, e) {\nif a != b || b != c || c != d || d != e {\nreturn 1\n}\nreturn 0\n}\nfunc worker(k) {\nvar n = 0\nfor i = 0; i < 4000; i++ {\nn += same(k, k, k, k, k)\n}\nres <- n\n}\nfor k = 0; k < 8; k++ {\ngo worker(k)\n}\ntotal = 0\nfor k = 0; k < 8; k++ {\ntotal += <-res\n}\nprobe(total)", vals.Encode(int64(0))},
+		{"res = make(chan int64, 8)\nfunc samev(a, rest...) {\nif a != rest[0] || a != rest[1] || len(rest) != 2 {\nreturn 1\n}\nreturn 0\n}\nfunc worker(k) {\nvar n = 0\nfor i = 0; i < 4000; i++ {\nn += samev(k, k, k)\n}\nres <- n\n}\nfor k = 0; k < 8; k++ {\ngo worker(k)\n}\ntotal = 0\nfor k = 0; k < 8; k++ {\ntotal += <-res\n}\nprobe(total)", vals.Encode(int64(0))},
+		{"res = make(chan int64, 8)\nfunc same2(a, b) {\nvar la = a\nvar lb = b\nif la != lb {\nreturn 1\n}\nreturn 0\n}\nfunc worker(k) {\nvar n = 0\nfor i = 0; i < 4000; i++ {\nn += same2(k, k)\n}\nres <- n\n}\nfor k = 0; k < 8; k++ {\ngo worker(k)\n}\ntotal = 0\nfor k = 0; k < 8; k++ {\ntotal += <-res\n}\nprobe(total)", vals.Encode(int64(0))},
+	}...)
 	for _, c := range closureCases {
 		stmt, err := parser.ParseSrc(c.src)
 		if err != nil {
